@@ -549,7 +549,13 @@ func entryParser(rc *RunCtx) *Violation {
 
 func entryTrailing(rc *RunCtx, w *world, p PH, x string, viol func(string, string) *Violation) *Violation {
 	full := x + w.junk
-	opts := []participle.ParseOption{participle.AllowTrailing(true)}
+	// without the option, before anything else happened on this parser
+	strictBefore := call(func() (interface{}, error) { return p.ParseString("file.txt", full) })
+	// the caller keeps its option lists in one small array, as programs that assemble them do: the
+	// empty list and the list with AllowTrailing share it
+	var optBuf [4]participle.ParseOption
+	none := optBuf[:0]
+	opts := append(none, participle.AllowTrailing(true))
 	traced := simrt.Choose(2) == 1
 	if traced {
 		opts = append(opts, participle.Trace(newSimWriter()))
@@ -581,6 +587,27 @@ func entryTrailing(rc *RunCtx, w *world, p PH, x string, viol func(string, strin
 	}
 	if !sameResult(viaString, res) {
 		return viol("AllowTrailing-ParseFromLexer-vs-ParseString", fmt.Sprintf("with AllowTrailing(true) over X+%q ParseFromLexer = %s but ParseString = %s", w.junk, clip(res.desc(), 400), clip(viaString.desc(), 400)))
+	}
+	// an option belongs to the call it was given to: afterwards a call without it (through a
+	// drawn entry point, handed the caller's empty option list) gives what it gave before, and the
+	// caller's option list still means what it meant
+	var strictAfter callResult
+	switch simrt.Choose(3) {
+	case 0:
+		strictAfter = call(func() (interface{}, error) { return p.ParseString("file.txt", full, none...) })
+	case 1:
+		strictAfter = call(func() (interface{}, error) { return p.ParseBytes("file.txt", []byte(full), none...) })
+	default:
+		strictAfter = call(func() (interface{}, error) { return p.Parse("file.txt", strings.NewReader(full), none...) })
+	}
+	if !sameResult(strictBefore, strictAfter) {
+		return viol("option-outlives-its-call", fmt.Sprintf("over X+%q a call without options returned %s before any call with AllowTrailing(true) and %s after one", w.junk, clip(strictBefore.desc(), 400), clip(strictAfter.desc(), 400)))
+	}
+	if !traced {
+		viaString2 := call(func() (interface{}, error) { return p.ParseString("file.txt", full, opts...) })
+		if !sameResult(viaString, viaString2) {
+			return viol("callers-option-list-changed", fmt.Sprintf("over X+%q ParseString with the caller's option list [AllowTrailing(true)] returned %s, and after a call that was handed the caller's empty list (same backing array) it returned %s", w.junk, clip(viaString.desc(), 400), clip(viaString2.desc(), 400)))
+		}
 	}
 	if res.Panic != "" || res.Err != nil {
 		// whether X+junk parses is C01's business; only the cursor position is asserted here
